@@ -4,6 +4,7 @@ import WtfModel.Props.C04
 #print axioms Wtf.C04.pipeline
 #print axioms Wtf.C04.fuzzy_path
 #print axioms Wtf.C04.legacy_pipeline
+#print axioms Wtf.C04.cli_recovery
 #print axioms Wtf.C04.cached
 #print axioms Wtf.C04.table_linux
 #print axioms Wtf.C04.table_macos
